@@ -299,6 +299,44 @@ theorem winner_messages_perm {xs ys : List (Outcome α)} (c : Cls) (h : xs.Perm 
     ((winners c xs).map Outcome.msg).Perm ((winners c ys).map Outcome.msg) :=
   (h.filter _).map _
 
+/-! ## lossless at any length: no message of the winning class is cut or dropped,
+    however many and however long they are -/
+
+/-- a non-empty message of a winning-class element is found, whole, in the merged message -/
+theorem winner_message_kept (c : Cls) (xs : List (Outcome α)) (x : Outcome α) (hx : x ∈ xs)
+    (hcls : x.cls = c) (s : String) (hm : x.msg = some s) (hs : s ≠ "") :
+    ∃ t pre post, mergeMsgs ((winners c xs).map Outcome.msg) = some t ∧ t = pre ++ s ++ post := by
+  apply mergeMsgs_contains _ s _ hs
+  refine List.mem_map.2 ⟨x, ?_, hm⟩
+  simp [winners, hx, cls_beq_true hcls]
+
+/-- PermFail: every non-empty PermFail message of the sequence is part of the combined message,
+    for sequences and messages of any length -/
+theorem combine_permFail_keeps_every_message (xs : List (Outcome α))
+    (hc : (combine xs).cls = .permFail) (x : Outcome α) (hx : x ∈ xs) (hcls : x.cls = .permFail)
+    (s : String) (hm : x.msg = some s) (hs : s ≠ "") :
+    ∃ t l pre post, combine xs = .nonOk (.permFail (some t) l) ∧ t = pre ++ s ++ post := by
+  obtain ⟨t, pre, post, e, ht⟩ := winner_message_kept .permFail xs x hx hcls s hm hs
+  refine ⟨t, mergeMsgs ((winners .permFail xs).map Outcome.loc), pre, post, ?_, ht⟩
+  rw [(combine_permFail xs hc).2, e]
+
+/-- Retry: every non-empty Retry message of the sequence is part of the combined message -/
+theorem combine_retry_keeps_every_message (xs : List (Outcome α))
+    (hc : (combine xs).cls = .retry) (x : Outcome α) (hx : x ∈ xs) (hcls : x.cls = .retry)
+    (s : String) (hm : x.msg = some s) (hs : s ≠ "") :
+    ∃ d t l pre post, combine xs = .nonOk (.retry d (some t) l) ∧ t = pre ++ s ++ post := by
+  obtain ⟨t, pre, post, e, ht⟩ := winner_message_kept .retry xs x hx hcls s hm hs
+  obtain ⟨w, rest, -, hcomb⟩ := combine_retry xs hc
+  exact ⟨_, t, _, pre, post, by rw [hcomb, e], ht⟩
+
+/-- with several winners the combined message is exactly as long as all their non-empty messages and
+    the separators between them: there is no bound on it (the model has no cap to reach) -/
+theorem merged_message_length (ms : List (Option String)) (h : 2 ≤ ms.length) :
+    ∃ t, mergeMsgs ms = some t ∧
+      t.length = ((truthyList ms).map String.length).sum + 2 * ((truthyList ms).length - 1) := by
+  match ms, h with
+  | a :: b :: rest, _ => exact ⟨_, rfl, joinStrs_length _⟩
+
 /-! ## `unwrapped_combine` is `combine` after wrapping bare values -/
 
 theorem unwrapped_class (xs : List (Unwrapped α)) :
@@ -338,5 +376,7 @@ example : (combine [Outcome.retry 5 (some "a") none, .ok (.raw 1) none, .retry 9
     .retry 2 (some "b") (some "l")]) = .nonOk (.retry 9 (some "a, b") (some "l")) := by decide
 example : (combine [Outcome.retry 5 (some "a") none, .permFail none none, .ok (.raw (1 : Nat)) none]).cls
     = .permFail := by decide
+example : ∃ t, mergeMsgs [some "region is not allowed", none, some "", some "quota exceeded"] = some t ∧
+    t.length = 21 + 14 + 2 := ⟨_, rfl, by decide⟩
 
 end Koreo.C03
